@@ -67,10 +67,19 @@ var hdrVariantCtr int
 
 // unprotect; withHdr: header pre-parsed from the same bytes
 func unprotect(sa *security.IKESAKey, b []byte, role message.Role, withHdr bool) callRes {
-	in := exact(b)
+	roCtr++
+	in, changed := roBuf(b, roCtr%2 == 0)
 	setCase("unprotect-raw " + roleName(role) + " " + hx(b))
-	return guard(func() (string, error) {
-		var h *message.IKEHeader
+	var h *message.IKEHeader
+	var hSnap message.IKEHeader
+	call := func() (string, error) {
+		m, err := ike.DecodeDecrypt(in, h, sa, role)
+		if err != nil {
+			return "", err
+		}
+		return renderMsg(m).String(), nil
+	}
+	r := guard(func() (string, error) {
 		if withHdr {
 			var err error
 			hdrVariantCtr++
@@ -89,13 +98,32 @@ func unprotect(sa *security.IKESAKey, b []byte, role message.Role, withHdr bool)
 			if err != nil {
 				return "", err
 			}
+			hSnap = *h
+			hSnap.PayloadBytes = nil
 		}
-		m, err := ike.DecodeDecrypt(in, h, sa, role)
-		if err != nil {
-			return "", err
-		}
-		return renderMsg(m).String(), nil
+		return call()
 	})
+	if r.kind == "panic" {
+		return r
+	}
+	// what the caller handed in is read-only: the datagram buffer (spare capacity included) and the header value
+	if w := changed(); w != "" {
+		return callRes{kind: "panic", val: "DecodeDecrypt wrote into the datagram buffer it was given: " + w}
+	}
+	if h != nil {
+		now := *h
+		now.PayloadBytes = nil
+		if fmt.Sprintf("%+v", now) != fmt.Sprintf("%+v", hSnap) {
+			return callRes{kind: "panic", val: fmt.Sprintf("DecodeDecrypt changed the header value it was given: %+v -> %+v", hSnap, now)}
+		}
+	}
+	// the same buffer (and header value) presented once more, as after a retransmission or a peek: same outcome
+	if roCtr%4 == 1 {
+		if r2 := guard(call); r2 != r {
+			return callRes{kind: "panic", val: "the same datagram buffer presented a second time gives another outcome: first " + clip(r.String()) + ", then " + clip(r2.String())}
+		}
+	}
+	return r
 }
 
 func unprotLine(k *saKeys, role message.Role, withHdr bool, b []byte) string {
@@ -706,7 +734,7 @@ func (c *Ctx) c06Case(s, s2 *SuiteStat, g *Gen, k *saKeys, lsa *longSA, role mes
 
 func (c *Ctx) c04Unprotect(g *Gen) {
 	s := c.suite("unprotect-arbitrary", "oracle",
-		"DecodeDecrypt on malformed datagrams with any key set (9 suites, both roles, header parsed from the same bytes or not supplied, and nil keys), SK bodies of every length 0..80, consistent chains in which the SK payload (genuine, short or random body) stands behind and/or in front of other payloads (unsupported ones that the walker skips, Nonce, Vendor ID), SK bodies 1..4 octets shorter than the checksum whose datagram tail is nevertheless the correct truncated HMAC over what precedes it (found by a Message ID search), and IKECrypto.Decrypt on every ciphertext length 0..96 x all 256 recovered pad-length octets; non-trivial = input >= 4 octets")
+		"DecodeDecrypt on malformed datagrams with any key set (9 suites, both roles, header parsed from the same bytes or not supplied, and nil keys), SK bodies of every length 0..80, genuine messages long and short in turn (every outcome on the long-lived key object = the outcome on a newly built one), consistent chains in which the SK payload (genuine, short or random body) stands behind and/or in front of other payloads (unsupported ones that the walker skips, Nonce, Vendor ID), SK bodies 1..4 octets shorter than the checksum whose datagram tail is nevertheless the correct truncated HMAC over what precedes it (found by a Message ID search), and IKECrypto.Decrypt on every ciphertext length 0..96 x all 256 recovered pad-length octets; non-trivial = input >= 4 octets")
 	idx := 0
 	var corr []corrCase
 	for _, st := range allSuites() {
@@ -725,6 +753,18 @@ func (c *Ctx) c04Unprotect(g *Gen) {
 				in[16] = 46
 				in = append(in, g.bytes(l)...)
 				in[27] = byte(len(in))
+			case 3: // genuine messages, long and short in turn, through the same long-lived object
+				var sx *Sx
+				if i%10 == 3 {
+					sx = L(A("msg"), g.header(), L(L(A("V"), X(g.keyBytesRandom(200+g.r.Intn(1500))))))
+				} else {
+					sx = L(A("msg"), g.header(), L(L(A("NONCE"), X(g.keyBytesRandom(1+g.r.Intn(20))))))
+				}
+				p, _ := protect(newSA(k), buildMsg(sx), !role, g.keyBytesRandom(32), -1)
+				if p.kind != "ok" {
+					continue
+				}
+				in = unhx(p.val)
 			case 2: // a well-formed chain in which the SK payload is NOT the first payload (or is followed by others)
 				in = g.displacedSK(k, !role)
 				if i%25 == 2 { // SK body shorter than the checksum, the datagram's tail a correct HMAC over what precedes it
@@ -748,6 +788,12 @@ func (c *Ctx) c04Unprotect(g *Gen) {
 				r = unprotect(nil, in, role, withHdr)
 			} else {
 				r = unprotect(sa, in, role, withHdr)
+				// the outcome is a function of the datagram (and the keys): the long-lived object and a newly built one agree
+				if rf := unprotect(newSA(k), in, role, withHdr); rf != r && r.kind != "panic" {
+					c.violate(Violation{Suite: s.Name, Kind: "property", Index: idx, Class: "unprotect-depends-on-earlier-datagrams",
+						Desc:  "DecodeDecrypt of this datagram on a key object that processed other datagrams before differs from DecodeDecrypt on a newly built object with the same keys (replay: re-run of the suite with this seed)",
+						Input: unprotLine(k, role, withHdr, in), Expected: clip("new object: " + rf.String()), Actual: clip("used object: " + r.String())})
+				}
 				if len(in) < 3000 && i%3 == 0 {
 					corr = append(corr, corrCase{line: unprotLine(k, role, withHdr, in), goRes: r.String(), nontr: len(in) >= 4})
 				}
